@@ -270,9 +270,9 @@ MASS_Z = {1: 1.008, 6: 12.011, 7: 14.007, 8: 15.999, 9: 18.998, 14: 28.086, 15: 
 HEAVY_BOND = {17: (1.68, 1.86), 35: (1.86, 2.04), 53: (2.06, 2.36), 16: (1.72, 1.92)}
 
 
-def _clear(za, zb):
+def _clear(za, zb, tol=0.4):
     """Smallest allowed non-bonded contact (A): well clear of any sane bonding threshold."""
-    return max(2.2, COV[za] + COV[zb] + 0.4 + 0.25)
+    return max(2.2, COV[za] + COV[zb] + tol + 0.25)
 
 
 def det3(g):
@@ -286,7 +286,8 @@ def _gdot(gram, d):
 
 
 def gen_molecular(rng, row, nmols=1, sizes=(2, 3), n=48, vol_per_atom=32.0, with_h=True, max_tries=400,
-                  boundary_prob=0.6, oblique=False, gram_fn=None, min_vol=150.0, halogens=0.0):
+                  boundary_prob=0.6, oblique=False, gram_fn=None, min_vol=150.0, halogens=0.0, bond_tolerance=0.4,
+                  face_bond=False):
     """A molecular crystal on the grid: `nmols` rigid mini-molecules (trees of bonded atoms) on general
     positions of setting `row`, bonded distances <= 1.5 A (X-H <= 1.12 A), every other contact >= 2.2 A.
     Returns a recipe dict (see build_crystal) with 'mols' = list of lists of asym indices (1-based) and
@@ -306,8 +307,15 @@ def gen_molecular(rng, row, nmols=1, sizes=(2, 3), n=48, vol_per_atom=32.0, with
         cand = np.array([(a, b, c) for a in rng_d for b in rng_d for c in rng_d if (a, b, c) != (0, 0, 0)],
                         dtype=np.int64)
         d2 = _gdot(gram, cand) * s2
-        heavy = cand[(d2 >= 1.15 ** 2) & (d2 <= 1.5 ** 2)]
-        light = cand[(d2 >= 0.85 ** 2) & (d2 <= 1.12 ** 2)]
+        tol = bond_tolerance
+        if tol > 0.6:
+            # stretched bonds for a caller that asks for a generous bonding tolerance: longer than any default threshold (+ band),
+            # shorter than the requested one (- band)
+            heavy = cand[(d2 >= 1.86 ** 2) & (d2 <= (1.28 + tol - 0.1) ** 2)]
+            light = cand[(d2 >= 1.42 ** 2) & (d2 <= (0.87 + tol - 0.1) ** 2)]
+        else:
+            heavy = cand[(d2 >= 1.15 ** 2) & (d2 <= 1.5 ** 2)]
+            light = cand[(d2 >= 0.85 ** 2) & (d2 <= 1.12 ** 2)]
         if len(heavy) == 0:
             continue
         hvec = {}
@@ -319,6 +327,20 @@ def gen_molecular(rng, row, nmols=1, sizes=(2, 3), n=48, vol_per_atom=32.0, with
             hvec = {z: v for z, v in hvec.items() if len(v)}
         asym, mols, bonds = [], [], []
         ok = True
+        # face_bond: the first atom sits just inside the low face of the most oblique axis and its first bond leaves the cell
+        # as steeply as possible (far end as deep into the neighbouring cell, in fractional terms, as a bond allows)
+        dg = det3(gram)
+        adj = [gram[1][1] * gram[2][2] - gram[1][2] ** 2, gram[0][0] * gram[2][2] - gram[0][2] ** 2, gram[0][0] * gram[1][1] - gram[0][1] ** 2]
+        fax = max(range(3), key=lambda i: gram[i][i] * adj[i] / float(dg))
+        steep = None
+        if face_bond:
+            rr = range(-18, 19)
+            big = np.array([(a, b, c) for a in rr for b in rr for c in rr if (a, b, c) != (0, 0, 0)], dtype=np.int64)
+            dbig = _gdot(gram, big) * s2
+            big = big[(dbig >= 1.3 ** 2) & (dbig <= 1.5 ** 2)]
+            if len(big) == 0:
+                continue
+            steep = big[np.argsort(big[:, fax])[:3]]
         for m, size in enumerate(szs):
             placed = False
             for _ in range(40):
@@ -326,6 +348,8 @@ def gen_molecular(rng, row, nmols=1, sizes=(2, 3), n=48, vol_per_atom=32.0, with
                     p0 = [rng.choice([rng.randint(-6, 6), n + rng.randint(-6, 6), rng.randrange(n)]) for _ in range(3)]
                 else:
                     p0 = [rng.randrange(n) for _ in range(3)]
+                if face_bond and m == 0:
+                    p0[fax] = rng.randint(0, 2)
                 pts = [np.array(p0, dtype=np.int64)]
                 zs = [rng.choice([6, 7, 8])]
                 bl = []
@@ -343,12 +367,14 @@ def gen_molecular(rng, row, nmols=1, sizes=(2, 3), n=48, vol_per_atom=32.0, with
                         z, vecs = rng.choice([6, 7, 8, 9]), heavy
                         if zs[parent] == 1:
                             parent = 0
+                    if face_bond and m == 0 and k == 1:
+                        parent, z, vecs = 0, rng.choice([6, 7, 8]), steep
                     q = pts[parent] + vecs[rng.randrange(len(vecs))]
                     # every other intramolecular pair must be clearly non-bonded
                     for j, pj in enumerate(pts):
                         if j == parent:
                             continue
-                        if _gdot(gram, (q - pj)[None, :])[0] * s2 < _clear(z, zs[j]) ** 2:
+                        if _gdot(gram, (q - pj)[None, :])[0] * s2 < _clear(z, zs[j], tol) ** 2:
                             good = False
                     if not good:
                         break
@@ -392,10 +418,10 @@ def gen_molecular(rng, row, nmols=1, sizes=(2, 3), n=48, vol_per_atom=32.0, with
             base = (pa // n) * n
             diff = (uc[:, None, :] + cells[None, :, :] + base[None, None, :]) - pa[None, None, :]
             dd = _gdot(gram, diff) * s2
-            close = np.argwhere(dd < (3.5 if halogens else 2.2) ** 2)
+            close = np.argwhere(dd < ((3.5 if halogens else 2.2) + max(0.0, tol - 0.4)) ** 2)
             keys = list(allpts.keys())
             for bi, ci in close:
-                if dd[bi, ci] >= _clear(s["z"], asym[allpts[keys[bi]]]["z"]) ** 2:
+                if dd[bi, ci] >= _clear(s["z"], asym[allpts[keys[bi]]]["z"], tol) ** 2:
                     continue
                 q = uc[bi] + cells[ci] + base
                 # allowed: the atom itself, or an intended bonded partner at its given (unwrapped) position
@@ -422,15 +448,17 @@ def gen_molecular(rng, row, nmols=1, sizes=(2, 3), n=48, vol_per_atom=32.0, with
         if not (0 < u2m < 2 ** 31):
             continue
         return {"number": row["number"], "choice": row["choice"], "n": n, "gram": gram, "u": math.sqrt(u2m / 1e6), "u2m": u2m,
-                "asym": asym, "mols": mols, "bonds": bonds, "route": "params"}
+                "asym": asym, "mols": mols, "bonds": bonds, "route": "params", "bond_tolerance": tol}
     return None
 
 
-def bond_table(rec, margin=0.08, tolerance=0.4):
+def bond_table(rec, margin=0.08, tolerance=None):
     """Per element pair: [za, zb, lo, hi] in grid units^2 from covalent radii held independently of the library (COV above,
     certified by TLC against Molecules!CovRadius100): bonded iff Dist2N <= lo; the domain guard demands that no pair distance
     lies in (lo, hi]."""
     n, u = rec["n"], rec["u"]
+    if tolerance is None:
+        tolerance = rec.get("bond_tolerance", 0.4)
     zs = sorted({s["z"] for s in rec["asym"]})
     out = []
     for a in zs:
